@@ -111,4 +111,33 @@ def delItem (p : Prims) : Table → Name → Except Err Table
 def keys (t : Table) : List Name :=
   (t.flatMap (·.names)).foldl (fun acc h => if acc.contains h then acc else acc ++ [h]) []
 
+/-! ## dict-style setters -/
+
+/-- the loop of `SubDict.__setitem__`: replace the key of the first matching entry of that type -/
+def subSetGo (p : Prims) (q : Name) (kt : String) (k : Key) : Table → Table × Bool
+  | [] => ([], false)
+  | e :: es =>
+    if hostnameMatches p q e && e.key.type == kt then ({ e with key := k } :: es, true)
+    else
+      let r := subSetGo p q kt k es
+      (e :: r.1, r.2)
+
+/-- `hostkeys[hostname][keytype] = key` (`KeyError` when the hostname is unknown) -/
+def subSet (p : Prims) (t : Table) (q : Name) (kt : String) (k : Key) : Except Err Table :=
+  if (lookup p t q).isEmpty then .error .keyError
+  else
+    let r := subSetGo p q kt k t
+    if r.2 then .ok r.1 else .ok (t ++ [{ names := [q], key := k }])
+
+/-- one key type of `hostkeys[hostname] = {keytype: key, …}`: every entry listing the name literally with that type
+gets the key; if there is none a new entry is appended -/
+def setItemOne (t : Table) (h : Name) (kt : String) (k : Key) : Table :=
+  if t.any (fun e => e.names.contains h && e.key.type == kt) then
+    t.map fun e => if e.names.contains h && e.key.type == kt then { e with key := k } else e
+  else t ++ [{ names := [h], key := k }]
+
+/-- `hostkeys[hostname] = entry` for a non-empty dict -/
+def setItem (t : Table) (h : Name) (kvs : List (String × Key)) : Table :=
+  kvs.foldl (fun t kv => setItemOne t h kv.1 kv.2) t
+
 end PV.HostKeys
